@@ -164,3 +164,24 @@ package vamana
 //@   loop 1 invariant i >= 0 && itersrc(iter) == filter && filter != nil && forall(j, 0, len(filterK), bhas(filter, filterK[j]))
 //@   loop 2 invariant v.nodeStore != nil && unheld(v.nodeStore.itemsMu) && v.nodeStore.items != nil && forallv(k2 uint64, contains(v.nodeStore.items, k2) ==> v.nodeStore.items[k2] != nil)
 //@   loop 2 invariant resultSet != nil && (filter == nil ==> resultSet == &searchSet) && (filter != nil ==> resultSet != &searchSet && resultSet != &visitedSet)
+
+// Search (property C03): what is built from the search set - never the entry node, never more
+// than the limit, hybrid score is -1 * (the set element's distance) * weight, the order of the
+// set is kept, and the bitmap holds exactly the ids. (The reported distance is a pointer to the
+// loop's copy of the element; such a pointer into a local struct is outside the memory model and
+// is abstracted, so the pointed-to value is not part of this contract.)
+//@ func (*IndexVamana).Search
+//@   property C03
+//@   floats order
+//@   safety -overflow -nil -makelen +subptr-abstract
+//@   requires query.Limit >= 1
+//@   requires v.nodeStore != nil && unheld(v.nodeStore.itemsMu) && v.nodeStore.items != nil && forallv(k2 uint64, contains(v.nodeStore.items, k2) ==> v.nodeStore.items[k2] != nil)
+//@   ensures result2 == nil ==> len(result1) <= query.Limit
+//@   ensures result2 == nil ==> forall(k, 0, len(result1), result1[k].NodeId != 1 && result1[k].Distance != nil)
+//@   ensures result2 == nil ==> result0 != nil && forall(k, 0, len(result1), bhas(result0, result1[k].NodeId))
+//@   ensures result2 == nil && query.Weight == nil ==> forall(k, 0, len(result1), exists(j, 0, len(callres(greedySearch, 1, 0).items), result1[k].NodeId == pid(callres(greedySearch, 1, 0).items[j].Point) && result1[k].HybridScore == -1 * callres(greedySearch, 1, 0).items[j].Distance * 1))
+//@   ensures result2 == nil && query.Weight != nil ==> forall(k, 0, len(result1), exists(j, 0, len(callres(greedySearch, 1, 0).items), result1[k].NodeId == pid(callres(greedySearch, 1, 0).items[j].Point) && result1[k].HybridScore == -1 * callres(greedySearch, 1, 0).items[j].Distance * *query.Weight))
+//@   loop 1 invariant rangeindex >= -1 && rangeindex < len(searchSet.items) && fresh(resultSet) && fresh(results) && len(results) <= query.Limit && len(results) <= rangeindex + 1
+//@   loop 1 invariant forall(k, 0, len(results), results[k].NodeId != 1 && results[k].Distance != nil)
+//@   loop 1 invariant forall(k, 0, len(results), bhas(resultSet, results[k].NodeId))
+//@   loop 1 invariant forall(k, 0, len(results), exists(j, 0, rangeindex+1, results[k].NodeId == pid(searchSet.items[j].Point) && results[k].HybridScore == -1 * searchSet.items[j].Distance * weight))
